@@ -145,6 +145,24 @@ META = {
         ],
         run_cap_s=120, shrink_tests=500, shrink_s=60,
     ),
+    "C17": _m(
+        "M", "exploration", (600, 200000), (300, 3000),
+        "Each run = one hierarchical model program (world-M generator with distributions on most vars, plus 1-3 'tight links': "
+        "child ~ Normal(g(parent), 1e-3) with g through cached / transient Calc nodes and weak vars, possibly chained), a few "
+        "assignments before the call, a skip set naming vars / dist nodes / value proxies, a seed and an auto-update setting. "
+        "The model is simulated three times from identical starts: with the planned auto-update setting, with the opposite one, "
+        "and again with the planned one. Non-trivial = at least one variable drawn; distinct = distinct (program shape, skip set, setting).",
+        "variables drawn (3 simulations per run)",
+        "distinct (program shape incl. families and node modes, skip set, auto-update setting) tuples",
+        ["liesel.model.Model.simulate / update / auto_update, GraphBuilder, node classes", "tfp distributions (sampling)"],
+        ["node functions: bounded jnp primitives (call-counted)"],
+        [
+            "the model is brought up to date before simulate() in every twin, so the only staleness is the one simulate creates itself",
+            "ancestral clause is decided only for the generated tight links (|draw - loc at new ancestors| <= 8e-3 + float32 slack; a correct draw violates it with probability < 2e-15)",
+            "PRNG-key-to-distribution assignment is liesel-internal, so draws are compared between twins, not against an independent sampler",
+        ],
+        run_cap_s=120, shrink_tests=300, shrink_s=60,
+    ),
 }
 
 
@@ -159,6 +177,15 @@ NOT_APPLICABLE["C18"] = (
 )
 
 MANIFEST_TEXT = {
+    "C17": dict(
+        technique="deterministic simulation: seeded model programs and pre-histories, differential twins over the auto-update setting, tight-link ancestral oracle",
+        design_ref="DESIGN.md section 4 C17, section 3 world M",
+        level_text="Seeded search over hierarchical programs (children depending on parents through cached/transient intermediates and weak "
+        "vars), skip sets, seeds and both auto-update settings; twins must draw bit-identical values, tight-link children must sit at the "
+        "value implied by the newly drawn parents, skipped vars stay untouched, shapes are preserved, and the model is coherent after "
+        "update(). Sampling, not a proof.",
+        level_note="Trusted: tfp samplers, jax PRNG. Node functions are stubs; Model.simulate and the graph are real.",
+    ),
     "C01": dict(
         technique="deterministic simulation with fault injection: seeded interleavings of logical client tasks over the real model graph, raising node functions, snapshot/restore; step invariants vs a from-scratch reference evaluator",
         design_ref="DESIGN.md section 4 C01, section 3 world M",
